@@ -99,20 +99,22 @@ func rtuMarginFor(speed uint, reqLen int) time.Duration {
 
 func init() {
 	checks["C07"] = func(tier string, seed uint64, res *Result) error {
-		res.Rule = "wall-clock runs with a real timeout T (60 ms) on real clients over an in-memory connection with real deadlines (tcp, tcp+tls wrapper, rtuovertcp, rtu) and over real loopback sockets (tcp, udp, rtuovertcp, rtuoverudp via Open()): peers that stay silent, stall after k bytes (every k), trickle one byte every T/4, flood well-formed foreign frames, send garbage, or answer validly after T/2 (alone or behind foreign frames); the call must return within T + margin (margin: scheduling slack; RTU: + request time + 2 t3.5 + 256 character times + 0.5 ms), silence must be ErrRequestTimedOut, a valid reply before T must be returned; exactly one deadline per exchange is armed (+ one in the RTU flush), compared with the Lean I/O trace model; distinct = (connection, scheme, peer behaviour, outcome)"
+		res.Rule = "wall-clock runs with a real timeout T (60 ms) on real clients over an in-memory connection with real deadlines (tcp, tcp+tls wrapper, rtuovertcp, rtu) and over real loopback sockets (tcp, udp, rtuovertcp, rtuoverudp via Open()): peers that stay silent, stall after k bytes (every k), trickle one byte every T/4, flood well-formed foreign frames, send garbage, or answer validly after T/2 (alone or behind foreign frames); the call must return within T + margin (margin: scheduling slack; RTU: + request time + 2 t3.5 + 256 character times + 0.5 ms), silence must be ErrRequestTimedOut, a valid reply before T must be returned; the deadlines are armed before the reads begin (MBAP: one; RTU: before the write and again after the emulated transmission, + one in the flush) and never inside the read loop, compared with the Lean I/O trace model; low baud rate (1200 bps) with the timeout below and above the emulated transmission time; distinct = (connection, scheme, peer behaviour, outcome)"
 		T := 60 * time.Millisecond
 		slack := 45 * time.Millisecond
 		r := NewRng(seed)
 		type job struct {
-			kind string
-			real bool
-			b    peerBehaviour
-			op   *Op
+			kind  string
+			real  bool
+			b     peerBehaviour
+			op    *Op
+			speed uint          // 0: 115200
+			T     time.Duration // 0: the default T
 		}
 		var jobs []job
 		for _, kind := range []string{"tcp", "tcp+tls", "rtuovertcp", "rtu"} {
 			for _, b := range c07Behaviours(r) {
-				jobs = append(jobs, job{kind, false, b, nil})
+				jobs = append(jobs, job{kind: kind, b: b})
 			}
 		}
 		for _, kind := range []string{"tcp", "udp", "rtuovertcp", "rtuoverudp"} {
@@ -120,7 +122,7 @@ func init() {
 				if strings.HasPrefix(b.name, "stall-after-") && b.name != "stall-after-3" && b.name != "stall-after-8" {
 					continue
 				}
-				jobs = append(jobs, job{kind, true, b, nil})
+				jobs = append(jobs, job{kind: kind, real: true, b: b})
 			}
 		}
 		// rtu:// through the REAL serial port wrapper (deadline emulation) over a fake serial.Port
@@ -128,7 +130,7 @@ func init() {
 			if b.name == "flood-foreign" {
 				continue
 			}
-			jobs = append(jobs, job{"rtu-serial", false, b, nil})
+			jobs = append(jobs, job{kind: "rtu-serial", b: b})
 		}
 		// "a valid reply that arrives before the timeout is never turned into a timeout", for the
 		// largest replies each transport can carry (MBAP frames of 255..260 bytes, RTU of 250..256)
@@ -145,12 +147,28 @@ func init() {
 		}
 		for _, kind := range []string{"tcp", "udp", "rtuovertcp", "rtuoverudp"} {
 			for _, op := range bigOps {
-				jobs = append(jobs, job{kind, true, late, op})
+				jobs = append(jobs, job{kind: kind, real: true, b: late, op: op})
 			}
 		}
 		for _, kind := range []string{"tcp", "tcp+tls", "rtuovertcp", "rtu", "rtu-serial"} {
 			for _, op := range bigOps[:3] {
-				jobs = append(jobs, job{kind, false, late, op})
+				jobs = append(jobs, job{kind: kind, b: late, op: op})
+			}
+		}
+		// low baud rates: the emulated transmission time of the request (n character times + t3.5)
+		// is comparable to the timeout. A reply that is available at once must be returned when the
+		// timeout exceeds that time comfortably (1200 bps, 8-byte request: 105 ms < 400 ms) AND when
+		// it does not (100 ms): "a valid reply that arrives before the timeout is never turned into
+		// a timeout".
+		immediate := peerBehaviour{"immediate-valid", func(w wireReq, feed func([]byte), stop <-chan struct{}, T time.Duration) {
+			feed(w.frame(w.unit, w.fc, validReplyPayload(NewRng(2), w.fc, w.payload)))
+		}}
+		for _, T2 := range []time.Duration{400 * time.Millisecond, 100 * time.Millisecond} {
+			for _, kind := range []string{"rtuovertcp", "rtu", "rtu-serial"} {
+				jobs = append(jobs, job{kind: kind, b: immediate, speed: 1200, T: T2})
+			}
+			for _, kind := range []string{"rtuovertcp", "rtuoverudp"} {
+				jobs = append(jobs, job{kind: kind, real: true, b: immediate, speed: 1200, T: T2})
 			}
 		}
 		var wg sync.WaitGroup
@@ -161,7 +179,14 @@ func init() {
 			go func(ji int, j job) {
 				defer wg.Done()
 				defer func() { <-sem }()
-				const speed = 115200
+				speed := uint(115200)
+				if j.speed != 0 {
+					speed = j.speed
+				}
+				T := T
+				if j.T != 0 {
+					T = j.T
+				}
 				op := j.op
 				if op == nil {
 					op = &Op{Name: "ReadRegisters", Addr: uint16(ji), Qty: 2}
@@ -239,6 +264,9 @@ func init() {
 				if j.op != nil {
 					label += fmt.Sprintf("/%s:%d", j.op.Name, j.op.Qty)
 				}
+				if j.speed != 0 {
+					label += fmt.Sprintf("/%dbps/T=%v", j.speed, T)
+				}
 				res.Eval(label+"/"+out[:min(len(out), 10)], true, fmt.Sprintf("%s real=%v peer=%s => %s in %v (T=%v, margin=%v, deadlines armed=%d)", j.kind, j.real, j.b.name, shorten(out, 40), elapsed, T, margin, deadlines))
 				res.Count("peer:" + j.b.name)
 				if elapsed > T+margin {
@@ -248,20 +276,25 @@ func init() {
 				switch {
 				case j.b.name == "silence" && out != "err:ErrRequestTimedOut":
 					res.Add(Finding{Kind: "property", Check: "silence-timeout", Line: label, Impl: out, Expect: "err:ErrRequestTimedOut"})
-				case strings.HasSuffix(j.b.name, "late-valid") && !strings.HasPrefix(out, "ok:"):
+				case strings.HasSuffix(j.b.name, "-valid") && !strings.HasPrefix(out, "ok:"):
 					if !(isRTUKind(j.kind) && j.b.name == "foreign-then-late-valid") { // RTU has no ids: a frame from another unit ends the exchange
-						res.Add(Finding{Kind: "property", Check: "spurious-timeout", Line: label, Impl: out, Expect: "ok", Note: "a valid reply that arrived before the timeout was not returned"})
+						note := "a valid reply that arrived before the timeout was not returned"
+						t1, t35 := modbus.VerifSerialTimings(speed)
+						if isRTUKind(j.kind) && T < 8*t1+2*t35 {
+							note = fmt.Sprintf("F9-class: the timeout (%v) is shorter than the emulated transmission time of the request plus inter-frame delays (%v at %d bps): the deadline armed before the delays has expired when the first read starts; ", T, 8*t1+2*t35, speed) + note
+						}
+						res.Add(Finding{Kind: "property", Check: "spurious-timeout", Line: label, Impl: out, Expect: "ok", Note: note})
 					}
-				case !strings.HasSuffix(j.b.name, "late-valid") && strings.HasPrefix(out, "ok:"):
+				case !strings.HasSuffix(j.b.name, "-valid") && strings.HasPrefix(out, "ok:"):
 					res.Add(Finding{Kind: "property", Check: "bogus-success", Line: label, Impl: out, Expect: "an error"})
 				}
 				if !j.real && deadlines >= 0 {
-					maxD := 1
+					minD, maxD := 1, 1
 					if isRTUKind(j.kind) {
-						maxD = 2
+						minD, maxD = 2, 3 // before the write, after the emulated transmission, + one in the flush
 					}
-					if deadlines < 1 || deadlines > maxD {
-						res.Add(Finding{Kind: "correspondence", Check: "deadline-count", Line: label, Impl: fmt.Sprintf("%d SetDeadline calls during one exchange", deadlines), Expect: fmt.Sprintf("1..%d (one absolute deadline per exchange, never re-armed inside the read loop)", maxD)})
+					if deadlines < minD || deadlines > maxD {
+						res.Add(Finding{Kind: "correspondence", Check: "deadline-count", Line: label, Impl: fmt.Sprintf("%d SetDeadline calls during one exchange", deadlines), Expect: fmt.Sprintf("%d..%d (absolute deadlines armed before the reads begin, never re-armed inside the read loop)", minD, maxD)})
 					}
 				}
 			}(ji, j)
